@@ -205,6 +205,8 @@ func C20(c *core.Ctx) {
 	emit(c, a.Route())
 	emit(c, a.CrossPackage("(*pkg/generator.schemaGenerator).generateReferencedType"))
 	emit(c, a.AccumulatorStartsEmpty("main.allKeys"))
+	// "(or the defaults)": a mapping given only some of the three per-id flags takes the defaults for the others
+	emit(c, a.MappingDefaults("main.init$1", "generator.SchemaMapping", []string{"PackageName", "OutputName"}))
 	facts := a.UniqueFacts()
 	ok := false
 	for _, f := range facts {
